@@ -274,6 +274,11 @@ class Documentable:
         old_name = self.name
         self.parent = self.parentMod = new_parent
         self.name = new_name
+        prev = self.system.allobjects.get(self.fullName())
+        if prev is not None and prev is not old_parent:
+            # The new name is already taken by a definition of the new parent:
+            # the moved object wins, like a later definition of the same name does.
+            self.system.handleDuplicate(self)
         self._handle_reparenting_post()
         del old_parent.contents[old_name]
         old_parent._localNameToFullName_map[old_name] = self.fullName()
